@@ -156,7 +156,20 @@ func (u *Unit) fam(st *State, key string, s Sort) string {
 	if t, ok := st.heap[key]; ok {
 		return t
 	}
+	// a family first read after a havoc-everything event gets that epoch's version (never the entry version)
+	ep := st.heapEpoch
+	switch {
+	case strings.HasPrefix(key, "G:"):
+		ep = st.ghostEpoch
+	case key == "alloc" || strings.HasPrefix(key, "V:"):
+		ep = 0
+	case strings.HasPrefix(key, "CH:") && u.c != nil && u.c.Flags["private_channels"]:
+		ep = 0
+	}
 	name := quote(key + "@0")
+	if ep > 0 {
+		name = quote(fmt.Sprintf("%s@e%d", key, ep))
+	}
 	u.declare(name, s)
 	return name
 }
